@@ -57,10 +57,20 @@ impl Prop for Framing {
             let systematic = first == SYS_MODE;
             if systematic {
                 let corpus = all_corpus();
-                let idx = w.tape.draw(corpus.len() + frames::N_BIG_BOUNDARY);
-                let script = if idx < corpus.len() { corpus[idx].clone() } else { frames::big_boundary_stream(idx - corpus.len()) };
+                let idx = w.tape.draw(corpus.len() + frames::N_BIG_BOUNDARY + frames::N_FRACTION);
+                let script = if idx < corpus.len() {
+                    corpus[idx].clone()
+                } else if idx < corpus.len() + frames::N_BIG_BOUNDARY {
+                    frames::big_boundary_stream(idx - corpus.len())
+                } else {
+                    frames::fraction_stream(idx - corpus.len() - frames::N_BIG_BOUNDARY).0
+                };
                 let len = script.stream().len();
-                let style = w.tape.draw(4);
+                let mut style = w.tape.draw(4);
+                if len > 1_000_000 && style == 3 {
+                    // (megabytes are not delivered byte by byte)
+                    style = 0;
+                }
                 w.cfg = Cfg::plain();
                 w.cfg.bias = 3;
                 let mut cuts = Vec::new();
@@ -348,6 +358,27 @@ impl Prop for Framing {
                 for back in [1usize, 2, 255, 256, 257, 300] {
                     tapes.push(tail(vec![SYS_MODE, idx, 1, (len - 1 - back) as u32]));
                 }
+            }
+        }
+        // fraction family: a frame of more than 1 MiB, then a long frame interrupted at a simple
+        // fraction of the length the buffer had reached (a transient failure there; for C07 also an
+        // abandoned receive there)
+        for j in 0..frames::N_FRACTION {
+            let idx = (corpus.len() + frames::N_BIG_BOUNDARY + j) as u32;
+            let (script, f1_end, off) = frames::fraction_stream(j);
+            let len = script.stream().len();
+            let at = (f1_end + off) as u32;
+            let mut with_glitch = vec![SYS_MODE, idx, 2, f1_end as u32 - 1, at - 1];
+            let mut without = with_glitch.clone();
+            if self.cancel {
+                with_glitch.push(11); // (abandon every 12th pending poll: practically never)
+                without.push(0); // abandon at every pending poll
+            }
+            with_glitch.extend([0, at]);
+            without.extend([0, len as u32]);
+            tapes.push(with_glitch);
+            if self.cancel {
+                tapes.push(without);
             }
         }
         for (idx, s) in corpus.iter().enumerate() {
